@@ -166,9 +166,25 @@ def loop_programs(rng, n):
             ind = ind[:-2]
             lines.append(f"{ind}  push(obs, {100 + d});")
             lines.append(f"{ind}}}")
-        lines.append("0")
+        # the loop nest is the LAST statement of the program in part of the cases: a `break` out of it then jumps to the
+        # very end of the code (a target equal to the code length)
+        if rng.random() < 0.6:
+            lines.append("0")
         out.append(("loops", "\n".join(lines) + "\n"))
     return out
+
+
+TAIL_LOOPS = [
+    "let obs = [];\nloop { push(obs, 1); break; }\n",
+    "let obs = [];\nlet i = 0;\nloop { i = i + 1; push(obs, i); if i > 2 { break; } }\n",
+    "let obs = [];\nlet i = 0;\nout: loop { i = i + 1; loop { push(obs, i); break out; } }\n",
+    "let obs = [];\nlet i = 0;\nwhile true { i = i + 1; if i == 3 { push(obs, i); break; } }\n",
+    "let obs = [];\nlet i = 0;\na: while i < 5 { i = i + 1; b: loop { if i == 2 { break a; } break b; } push(obs, i); }\n",
+    "let obs = [];\nfn f() { loop { push(obs, 7); break; } }\nf();\nloop { break; }\n",
+    "let obs = [];\nlet i = 0;\nloop { i = i + 1; match i { 3 => { break; }, _ => { push(obs, i); } } }\n",
+    "let obs = [];\nif true { loop { push(obs, 2); break; } }\n",
+    "let obs = [];\n{ loop { push(obs, 3); break; } }\n",
+]
 
 
 def core_match_programs(ctx):
@@ -207,7 +223,7 @@ def core_match_programs(ctx):
 
 def cases(ctx):
     rng = ctx.rng
-    progs = table_programs(ctx) + chain_programs() + loop_programs(rng, ctx.scale(1500, 60000))
+    progs = table_programs(ctx) + chain_programs() + loop_programs(rng, ctx.scale(1500, 60000)) + [("tail-loop", s) for s in TAIL_LOOPS]
     for s in gen_lang.programs(rng, ctx.scale(500, 30000), max_stmts=8):
         progs.append(("generated", s))
     srcs = [s for _, s in progs]
